@@ -8,7 +8,7 @@
 use super::*;
 use crate::static_versions::v5;
 
-const N: usize = 7;
+const N: usize = 8;
 
 static mut CALLS: [usize; 12] = [0; 12];   // length of the buffer handed to each ppbv call
 static mut NCALLS: usize = 0;
@@ -51,7 +51,7 @@ fn model_random_state() -> std::hash::RandomState { unsafe { std::mem::transmute
 /// B.lib.parse_bytes
 #[kani::proof]
 #[kani::stub(std::hash::RandomState::new, model_random_state)]
-#[kani::unwind(9)]
+#[kani::unwind(10)]
 #[kani::stub(NetflowParser::parse_packet_by_version, model_ppbv)]
 fn b_lib_parse_bytes() {
     let buf: [u8; N] = kani::any();
@@ -109,4 +109,6 @@ fn b_lib_parse_bytes() {
     kani::cover!(idx >= 3, "three elements");
     assert!(idx == out.len(), "extra elements: error not last, or packets reported after the stop");
     unsafe { assert!(NCALLS == calls, "input after the stop / after the end was parsed"); }
+    std::mem::forget(out);      // no drop glue for the (large) packet enum
+    std::mem::forget(parser);
 }
